@@ -217,11 +217,37 @@ struct Server {
 };
 
 // ---- the case ------------------------------------------------------------------------------------------------------------------
-enum { O_SET = 0, O_ERASE, O_CLEAR, O_EXPOSE, O_HIDE, O_AGE, O_DEF_AGE, O_EXPIRATION, O_DEF_EXP, O_ON_SERVER, O_RESET, O_NKINDS };
-static const char *ONAME[] = {"set", "erase", "clear", "expose", "hide", "age", "default_age", "expiration", "default_expiration", "on_server", "reset_session"};
+enum { O_SET = 0, O_ERASE, O_CLEAR, O_EXPOSE, O_HIDE, O_AGE, O_DEF_AGE, O_EXPIRATION, O_DEF_EXP, O_ON_SERVER, O_RESET, O_SET_BIG, O_NKINDS };
+static const char *ONAME[] = {"set", "erase", "clear", "expose", "hide", "age", "default_age", "expiration", "default_expiration", "on_server", "reset_session", "set_big"};
 enum { C_REQ = 0, C_ADV, C_RESTART, C_GC, C_PLANT, C_NKINDS };
 static const char *KEYS[] = {"a", "b", "x", "a_b", "B", "key.long-name-0123456789", "c"};
 static const int NKEYS = 7;
+// A key is an integer code in the case file: 0..999 name the table above (modulo), 1000 + 8 * length + flavor a synthesized key of
+// that length (1..1100): flavors 0..2 and 5..7 plain fillers, 3 and 4 bytes that are themselves well-formed packed entries.
+static const int KEY_SYNTH = 1000;
+static int key_code(int len, int flavor) { return KEY_SYNTH + 8 * len + (flavor & 7); }
+static std::string key_of(int code) {
+    if (code < KEY_SYNTH) return KEYS[((code % NKEYS) + NKEYS) % NKEYS];
+    size_t len = (size_t)(code - KEY_SYNTH) / 8; int fl = (code - KEY_SYNTH) % 8;
+    if (len < 1) len = 1; if (len > 1100) len = 1100;
+    switch (fl) {
+    case 0: return std::string(len, 'k');
+    case 1: return std::string(len, 'K');
+    case 2: { std::string r(len, 'a'); for (size_t i = 0; i < len; i++) r[i] = char('a' + i % 26); return r; }
+    case 3: case 4: return adversarial_bytes(len);
+    default: return std::string(len, char('m' + fl));
+    }
+}
+static bool plain_key(std::string const &k) { if (k.size() > 64) return false; for (char c : k) if (!(isalnum((unsigned char)c) || c == '.' || c == '-' || c == '_')) return false; return true; }
+// values of O_SET_BIG are synthesized too (2 MiB strings do not belong into case files): num selects length and content
+static const size_t BIG_LEN[6] = {VALUE_LIMIT - 2, VALUE_LIMIT - 1, VALUE_LIMIT, VALUE_LIMIT + 1, 70000, 1u << 20};
+static std::string big_value(int num) { size_t n = BIG_LEN[((num % 6) + 6) % 6]; return ((num / 6) & 1) ? adversarial_bytes(n) : std::string(n, 'V'); }
+static std::string len_class(const char *what, size_t n, size_t limit) {
+    std::string w = what; const char *unit = limit == KEY_LIMIT ? "1024" : "2MiB";
+    if (n == limit) return w + "=" + unit; if (n == limit + 1) return w + "=" + unit + "+1"; if (n > limit + 1) return w + ">" + unit + "+1";
+    if (n == limit - 1) return w + "=" + unit + "-1"; if (n == limit - 2) return w + "=" + unit + "-2";
+    return std::string();
+}
 struct SubOp { int kind = 0, key = 0, num = 0; std::string val; };
 struct Cmd { int kind = 0, b = 0, a1 = 0, a2 = 0; std::vector<SubOp> ops; };
 struct Case {
@@ -247,7 +273,7 @@ struct Case {
     std::string pretty() const {
         std::string r = cfg.describe() + " |";
         for (auto &c : cmds) {
-            if (c.kind == C_REQ) { r += " REQ" + std::to_string(c.b) + "["; for (auto &o : c.ops) r += std::string(ONAME[o.kind % O_NKINDS]) + (o.kind == O_SET ? "(" + std::string(KEYS[o.key % NKEYS]) + "," + std::to_string(o.val.size()) + "B)" : "") + " "; r += "]"; }
+            if (c.kind == C_REQ) { r += " REQ" + std::to_string(c.b) + "["; for (auto &o : c.ops) r += std::string(ONAME[o.kind % O_NKINDS]) + (o.kind == O_SET || o.kind == O_SET_BIG ? "(" + (o.key < KEY_SYNTH ? key_of(o.key) : "key[" + std::to_string(key_of(o.key).size()) + "B/" + std::to_string((o.key - KEY_SYNTH) % 8) + "]") + "," + std::to_string(o.kind == O_SET ? o.val.size() : BIG_LEN[((o.num % 6) + 6) % 6]) + "B)" : "") + " "; r += "]"; }
             else if (c.kind == C_ADV) r += " ADV(" + std::to_string(c.a1) + "," + std::to_string(c.a2) + ")";
             else if (c.kind == C_RESTART) r += " RESTART" + std::to_string(c.b);
             else if (c.kind == C_GC) r += " GC";
@@ -268,7 +294,7 @@ struct World {
     std::map<std::string, Snap> tokens;             // by session cookie value
     std::vector<std::string> issued, dead;          // in order of first appearance / of death
     std::set<std::string> issued_set;
-    bool f_read_after_advance = false, f_switch = false, f_replay_dead = false;
+    bool f_read_after_advance = false, f_switch = false, f_replay_dead = false, f_boundary = false;
     World(Case const &c) : sv(c.cfg), cfg(sv.cfg), lifetime_too(c.strict != 2) { for (int i = 0; i < cfg.nb; i++) jars.emplace_back(new Jar()); }
 
     std::string ctx(int b) { return " | cfg={" + cfg.describe() + "} now=T0+" + std::to_string(now() - T0) + " browser=" + std::to_string(b) + " jar={" + jars[b]->dump() + "}"; }
@@ -330,7 +356,11 @@ struct World {
         std::string where = ctx(b);
 
         cppcms::session_interface s(*sv.pool, jar);
-        bool loaded = s.load();
+        bool loaded = false;
+        try { loaded = s.load(); }
+        catch (std::exception const &e) {
+            return bad(can ? "load:exception-after-successful-save" : "load:exception", std::string("load() threw '") + e.what() + "'" + (can ? " for a live session the previous request saved without complaint: expected " + show_state(sn->st) : std::string()) + where);
+        }
         // ---- what the request reads
         State R;
         for (auto &k : s.key_set()) { Ent e; e.v = s.get(k); e.exp = s.is_exposed(k); R.data[k] = e; }
@@ -349,8 +379,8 @@ struct World {
             bool keys_same = true;
             if (R.data.size() != L.data.size()) keys_same = false;
             for (auto &kv : L.data) { auto p = R.data.find(kv.first); if (p == R.data.end() || p->second.v != kv.second.v) keys_same = false; }
-            V_CHECK(keys_same, "read:wrong-data", "the session read differs from what the previous request left" + rd);
-            for (auto &kv : L.data) V_CHECK(R.data[kv.first].exp == kv.second.exp, "read:exposed-flag", "exposed flag of key " + kv.first + " did not carry over" + rd);
+            V_CHECK(keys_same, sn->boundary ? "read:foreign-key-after-boundary-length-save" : "read:wrong-data", std::string("the session read differs from what the previous request left") + (sn->boundary ? " (that request saved a key / value at the limit of the packed entry header without complaint)" : "") + rd);
+            for (auto &kv : L.data) V_CHECK(R.data[kv.first].exp == kv.second.exp, "read:exposed-flag", "exposed flag of key " + vr::show(kv.first, 32) + " did not carry over" + rd);
             VR.cls("read:live");
             if (now() > sn->written_at) { f_read_after_advance = true; VR.cls("read:live-after-clock-advance"); }
         }
@@ -364,13 +394,19 @@ struct World {
         // ---- the request's operations, on both sides
         State cur = L; int cur_age = L.has_age ? L.age : cfg.timeout, cur_how = L.has_how ? L.how : cfg.expire; bool cur_srv = L.has_srv ? L.srv : false, reset = false;
         for (auto &o : ops) {
-            std::string k = KEYS[((o.key % NKEYS) + NKEYS) % NKEYS];
+            std::string k = key_of(o.key);
             int okind = ((o.kind % O_NKINDS) + O_NKINDS) % O_NKINDS;
-            if ((okind == O_EXPOSE || okind == O_HIDE || (okind == O_ERASE && (o.num & 1))) && !cur.data.empty()) {   // aim at a key that is set
+            if (okind == O_ERASE && (o.num & 1) && !cur.data.empty()) {   // aim at a key that is set
                 auto p = cur.data.begin(); std::advance(p, (size_t)(o.key < 0 ? -o.key : o.key) % cur.data.size()); k = p->first;
+            }
+            if (okind == O_EXPOSE || okind == O_HIDE) {   // aim at a key that is set and fit for a cookie name
+                std::vector<std::string> cand; for (auto &kv : cur.data) if (plain_key(kv.first)) cand.push_back(kv.first);
+                if (!cand.empty()) k = cand[(size_t)(o.key < 0 ? -o.key : o.key) % cand.size()];
+                else if (!plain_key(k)) k = KEYS[0];
             }
             switch (okind) {
             case O_SET: if (o.num & 1) s[k] = o.val; else s.set(k, o.val); cur.data[k].v = o.val; break;
+            case O_SET_BIG: { std::string v = big_value(o.num); s.set(k, v); cur.data[k].v.swap(v); break; }
             case O_ERASE: s.erase(k); cur.data.erase(k); break;
             case O_CLEAR: s.clear(); cur.data.clear(); cur.has_age = cur.has_how = cur.has_srv = false; VR.cls("op:clear"); break;
             case O_EXPOSE: if (cur.data.count(k)) { s.expose(k); cur.data[k].exp = true; } else VR.excl("expose/hide of a key that is not set (undocumented: creates the key)"); break;
@@ -395,7 +431,37 @@ struct World {
         }
         if (!cur.has_age) cur.age = 0; if (!cur.has_how) cur.how = 0; if (!cur.has_srv) cur.srv = false;
 
-        s.save();
+        // ---- entries at the edge of what the packed entry header (10 bit key size, 21 bit value size) can hold.  Sizes that do not
+        // fit are refused by save() (cppcms_error, nothing stored, nothing sent): then the previous state stays.  Should an
+        // implementation accept them, the model takes the save at its word and the next request must read exactly this state.
+        bool over = false, edge_len = false;
+        std::vector<std::string> len_classes;
+        for (auto &kv : cur.data) {
+            if (kv.first.size() >= KEY_LIMIT || kv.second.v.size() >= VALUE_LIMIT) over = true;
+            std::string a = len_class("key_len", kv.first.size(), KEY_LIMIT), b2 = len_class("value_len", kv.second.v.size(), VALUE_LIMIT);
+            if (!a.empty()) len_classes.push_back(a); if (!b2.empty()) len_classes.push_back(b2);
+            if (a.empty() && kv.first.size() > 64) VR.cls("key_len=65..1021");
+            if (b2.empty() && kv.second.v.size() >= 65536) VR.cls("value_len=64KiB..2MiB-3");
+        }
+        edge_len = !len_classes.empty();
+        int calls_before_save = jar.calls; std::string cookie_before_save = jar.session();
+        bool refused = false; std::string refusal;
+        try { s.save(); }
+        catch (cppcms::cppcms_error const &e) { refused = true; refusal = e.what(); }
+        if (edge_len) {
+            f_boundary = true;
+            for (auto &c : len_classes) {
+                bool too_long = c.find("-") == std::string::npos;
+                VR.cls(c + (too_long ? (refused ? "_refused" : "_accepted") : (refused ? (over ? "_in-refused-save" : "_REFUSED") : "")));
+            }
+        }
+        if (refused) {
+            V_CHECK(over, "save:refused-entry-within-limits", "save() threw '" + refusal + "' although every key is <= 1023 and every value <= 2 MiB - 1 bytes: " + show_state(cur) + where);
+            VR.cls("save:refused-over-long-entry");
+            V_CHECK(jar.calls == calls_before_save && jar.session() == cookie_before_save, "save:refused-but-cookies-sent", "save() refused the session ('" + refusal + "') but cookies were sent" + where);
+            Outcome o = check_storage(" after a refused save" + where);
+            return o;            // the model is unchanged: the next request reads what was there before
+        }
 
         // ---- what must have happened
         std::string token2 = jar.session();
@@ -448,7 +514,7 @@ struct World {
                 } else if (was_srv && sn->alive) { kill(token); killed = token; }
                 if (sn && sn->server != srv_kind) { f_switch = true; VR.cls(srv_kind ? "switch:cookie->server" : "switch:server->cookie"); }
                 VR.cls(isnew ? (reset && !L.empty() ? "save:reset" : "save:new") : "save:update");
-                Snap n2; n2.st = cur; n2.deadline = deadline2; n2.written_at = now(); n2.alive = true; n2.server = srv_kind;
+                Snap n2; n2.st = cur; n2.deadline = deadline2; n2.written_at = now(); n2.alive = true; n2.server = srv_kind; n2.boundary = edge_len;
                 tokens[token2] = n2;
                 if (issued_set.insert(token2).second) issued.push_back(token2);
                 // life time of the session cookie
@@ -575,7 +641,8 @@ static Outcome run_case(Case const &c0) {
     if (w.f_read_after_advance) VR.cls("nt:read-after-clock-advance");
     if (w.f_switch) VR.cls("nt:client<->server-switch");
     if (w.f_replay_dead) VR.cls("nt:dead-identifier-replayed");
-    if (w.f_read_after_advance || w.f_switch || w.f_replay_dead) { vr::CaseWriter cw; c.encode(cw); VR.nontrivial(vr::fnv(cw.str())); }
+    if (w.f_boundary) VR.cls("nt:boundary-length-entry");
+    if (w.f_read_after_advance || w.f_switch || w.f_replay_dead || w.f_boundary) { vr::CaseWriter cw; c.encode(cw); VR.nontrivial(vr::fnv(cw.str())); }
     if (VR.want_sample()) VR.sample(c.pretty());
     return ok();
 }
@@ -591,10 +658,15 @@ static rc::Gen<std::string> genValue(int limit) {
 }
 static rc::Gen<SubOp> genSubOp(int limit) {
     using namespace rc;
-    return gen::mapcat(gen::weightedElement<int>({{12, O_SET}, {3, O_ERASE}, {1, O_CLEAR}, {3, O_EXPOSE}, {1, O_HIDE}, {2, O_AGE}, {1, O_DEF_AGE}, {2, O_EXPIRATION}, {1, O_DEF_EXP}, {2, O_ON_SERVER}, {2, O_RESET}}), [limit](int kind) {
-        Gen<int> num = kind == O_AGE ? gen::element(1, 2, 5, 7, 10, 20, 30, 100, 1000, 86400) : vr::range<int>(0, 6);
+    // keys: mostly the short table, a share of synthesized keys of every length 1..1023 and a deliberate share at the boundary
+    Gen<int> key = gen::weightedOneOf<int>({{32, vr::range<int>(0, NKEYS)},
+                                            {2, gen::map(gen::tuple(vr::range<int>(1, 1024), vr::range<int>(0, 8)), [](std::tuple<int, int> t) { return key_code(std::get<0>(t), std::get<1>(t)); })},
+                                            {2, gen::map(gen::tuple(gen::element(1022, 1023, 1023, 1024, 1024, 1025), vr::range<int>(0, 8)), [](std::tuple<int, int> t) { return key_code(std::get<0>(t), std::get<1>(t)); })}});
+    long big_w = vr::envl("C06_BIG_WEIGHT", 1);     // 2 MiB values are expensive: about one operation in 1500 (the grid unit guarantees them)
+    return gen::mapcat(gen::weightedElement<int>({{600, O_SET}, {150, O_ERASE}, {50, O_CLEAR}, {150, O_EXPOSE}, {50, O_HIDE}, {100, O_AGE}, {50, O_DEF_AGE}, {100, O_EXPIRATION}, {50, O_DEF_EXP}, {100, O_ON_SERVER}, {100, O_RESET}, {(size_t)big_w, O_SET_BIG}}), [limit, key](int kind) {
+        Gen<int> num = kind == O_AGE ? gen::element(1, 2, 5, 7, 10, 20, 30, 100, 1000, 86400) : kind == O_SET_BIG ? vr::range<int>(0, 12) : vr::range<int>(0, 6);
         Gen<std::string> val = kind == O_SET ? genValue(limit) : gen::just(std::string());
-        return gen::map(gen::tuple(vr::range<int>(0, NKEYS), num, val), [kind](std::tuple<int, int, std::string> t) { SubOp o; o.kind = kind; o.key = std::get<0>(t); o.num = std::get<1>(t); o.val = std::get<2>(t); return o; });
+        return gen::map(gen::tuple(key, num, val), [kind](std::tuple<int, int, std::string> t) { SubOp o; o.kind = kind; o.key = std::get<0>(t); o.num = std::get<1>(t); o.val = std::get<2>(t); return o; });
     });
 }
 static rc::Gen<Cmd> genCmd(int limit) {
@@ -647,7 +719,33 @@ static void watchdog(long limit_s) {
     }
 }
 
+// ---- the boundary grid: {key 1023, 1024, 1025} x {value 0, 2 MiB - 1, 2 MiB, 2 MiB + 1} x every location / storage, once per run.
+// History: create a session (a=alice), add the boundary entry, read, advance, change another key, read.  Key and value bytes are
+// themselves well-formed packed entries (user=root, _t=7, ...), so a header that wrapped would make the next load read those.
+static int run_grid() {
+    int failed = 0;
+    static const int KL[3] = {1023, 1024, 1025};
+    struct LS { int loc, stor, spy; } const CF[11] = {{L_CLIENT, 0, 0}, {L_SERVER, S_MEM, 0}, {L_SERVER, S_MEM, 1}, {L_SERVER, S_FILES, 0}, {L_SERVER, S_FILES, 1}, {L_SERVER, S_NET, 1},
+                                                     {L_BOTH, S_MEM, 0}, {L_BOTH, S_MEM, 1}, {L_BOTH, S_FILES, 0}, {L_BOTH, S_FILES, 1}, {L_BOTH, S_NET, 1}};
+    for (auto const &cf : CF) for (int kl : KL) for (int vi = -2; vi < 4; vi++) {     // vi: -2 empty value + plain key, -1 empty value, 0..3 = 2 MiB - 2 + vi ... see BIG_LEN; 0 is skipped
+        if (vi == 0) continue;
+        Case c; c.cfg.loc = cf.loc; c.cfg.stor = cf.stor; c.cfg.spy = cf.spy; c.cfg.expire = RENEW; c.cfg.limit = 64; c.cfg.timeout = 100; c.cfg.enc = 0; c.cfg.method = 0; c.cfg.nb = 1; c.strict = 1;
+        auto req = [](std::vector<SubOp> ops) { Cmd m; m.kind = C_REQ; m.ops = ops; return m; };
+        SubOp a; a.kind = O_SET; a.key = 0; a.val = "alice";
+        SubOp e; e.key = key_code(kl, vi == -2 ? 0 : 3);
+        if (vi < 0) { e.kind = O_SET; e.val = ""; } else { e.kind = O_SET_BIG; e.num = vi + 6; }      // + 6: adversarial content
+        SubOp b; b.kind = O_SET; b.key = 1; b.val = "1";
+        Cmd adv; adv.kind = C_ADV; adv.a1 = 0; adv.a2 = 1;
+        c.cmds = {req({a}), req({e}), req({}), adv, req({b}), req({})};
+        if (!vr::run_direct(std::string("sessions"), c, run_case)) failed++;
+        VR.cls("grid:cases");
+    }
+    VR.finish();
+    return failed ? 1 : 0;
+}
+
 int main(int argc, char **argv) {
+    for (int i = 1; i < argc; i++) if (!strcmp(argv[i], "--grid")) { vr::install_crash_hooks(); int rc = run_grid(); fflush(stdout); _exit(rc); }
     if (!vr::replay_arg(argc, argv)) std::thread(watchdog, vr::envl("C06_WATCHDOG", 300)).detach();
     std::vector<std::unique_ptr<vr::PropBase>> props;
     props.push_back(vr::prop<Case>("sessions", genCase(), run_case));
